@@ -161,9 +161,12 @@ Definition instant (x : dtime) : Z := days3 (dt_date x) * (86400 * NS) + tod_ns 
 Definition valid_tod (x : dtime) : bool :=
   (0 <=? dt_h x) && (dt_h x <? 24) && (0 <=? dt_mi x) && (dt_mi x <? 60) && (0 <=? dt_s x) && (dt_s x <? 60) &&
   (0 <=? dt_ns x) && (dt_ns x <? NS).
-(* date_time_offset succeeds *)
+(* date_time_offset succeeds: the local date and time are representable and so is the UTC date-time *)
+Definition chrono_min_instant : Z := days_from_civil (-262143) 1 1 * (86400 * NS).
+Definition chrono_max_instant : Z := days_from_civil 262142 12 31 * (86400 * NS) + (86400 * NS - 1).
 Definition chrono_dt (x : dtime) : bool :=
-  chrono_date3 (dt_date x) && valid_tod x && (-86400 <? dt_off x) && (dt_off x <? 86400).
+  chrono_date3 (dt_date x) && valid_tod x && (-86400 <? dt_off x) && (dt_off x <? 86400) &&
+  (chrono_min_instant <=? instant x) && (instant x <=? chrono_max_instant).
 
 Definition dt_compare_impl (a b : dtime) : option comparison :=
   if chrono_dt a && chrono_dt b then Some (instant a ?= instant b) else None.
